@@ -674,24 +674,28 @@ VALUE_WRAP = re.compile(r"(Deref::deref|Vec::<T, A>::as_slice|AsRef::as_ref|Borr
 
 
 def is_value_of(e, target_rx):
-    """e is the value returned by a call matching target_rx, seen only through references, derefs, await/?
-    plumbing and identity-like conversions (not merely an expression that mentions it)."""
+    return value_source(e, target_rx) is not None
+
+
+def value_source(e, target_rx):
+    """the call node matching target_rx whose returned value e is, seen only through references, derefs, await/?
+    plumbing and identity-like conversions (not merely an expression that mentions it); None otherwise."""
     while isinstance(e, tuple) and e:
         if e[0] == "call":
             if re.search(target_rx, e[1]):
-                return True
+                return e
             if VALUE_WRAP.search(e[1]) and e[2]:
                 e = e[2][0]
                 continue
-            return False
+            return None
         if e[0] in ("proj", "ref", "deref", "cast", "copy", "move"):
             e = e[1]
             continue
         if e[0] == "un" and len(e) > 2:
             e = e[2]
             continue
-        return False
-    return False
+        return None
+    return None
 
 
 def shuffle_verify_path(ctx, facts, rule):
@@ -757,3 +761,149 @@ def shuffle_verify_path(ctx, facts, rule):
         bad = [o for o in oks if not all(flow.dominates(d, s, o) for s in sends)]
         good = bool(oks) and len(sends) >= 3 and not bad
         ctx.ob(rule, "h3_verify:ok-behind-all-sends", good, f"every Ok lies behind all {len(sends)} hash sends" if good else "h3_verify can return Ok without sending every hash (the peers' comparison would never complete or be skipped)", site_of(b3, bad[0]) if bad else site_of(b3))
+
+
+# ---------------------------------------------------------------------------------------------
+SEG_FIELDS = ("x_left", "x_right", "y_left", "y_right", "prss_left", "prss_right", "z_right")
+
+
+def _leaves(e, kind):
+    out = []
+    if isinstance(e, tuple) and e and isinstance(e[0], str):
+        if e[0] == kind:
+            out.append(e)
+        for x in e[1:]:
+            if isinstance(x, tuple):
+                if x and isinstance(x[0], str):
+                    out.extend(_leaves(x, kind))
+                else:
+                    for y in x:
+                        out.extend(_leaves(y, kind))
+    return out
+
+
+def field_transport(ctx, facts, rule):
+    """The seven recorded values of a multiplication keep their identity from zkp_multiply to the proof tables:
+    x_left stays x_left etc. through Segment::from_entries, insert_segment_small / _large, Block::set / clone_from."""
+    ctx.rule(f"{rule}: Segment / MultiplicationInputsBlock have the same seven fields; every function that stores positional parameters into them (Segment::from_entries, MultiplicationInputsBlock::set, ::clone_from) maps its parameters one-to-one onto the fields; at each call site the argument handed to parameter k is the like-named field of the source segment (x_left -> x_left, ...); insert_segment_small pairs segment.F with block.F; zkp_multiply hands from_entries (a.left, a.right, b.left, b.right, prss.0, prss.1, z.right) for (x_left, x_right, y_left, y_right, prss_left, prss_right, z_right) and the same (a, b, prss.0, prss.1) to the multiplication")
+    P = "protocol::context::dzkp_validator::"
+    for adt in ("Segment", "MultiplicationInputsBlock"):
+        a = facts.adts.get(P + adt)
+        names = tuple(f["name"] for f in a["variants"][0]["fields"]) if a else ()
+        ctx.ob(rule, f"{adt}:seven-fields", set(names) == set(SEG_FIELDS), "x/y left/right, prss left/right, z_right" if set(names) == set(SEG_FIELDS) else f"{adt} has fields {names}: the transport table no longer matches the data model")
+    sinks = {}
+    for root in (P + "Segment::<'a>::from_entries", P + "MultiplicationInputsBlock::set", P + "MultiplicationInputsBlock::clone_from"):
+        b = facts.bodies.get(root)
+        if b is None:
+            ctx.missing(rule, root)
+            continue
+        ctx.count(bodies=1)
+        m = {}
+        for bb, idx, s in b.iter_assigns():
+            r = s["r"]
+            fs = [e for e in s["p"][1:] if isinstance(e, list) and e[0] == "f" and e[2] in SEG_FIELDS]
+            if fs and "o" in r:
+                args = {x[1] for x in _leaves(flow.expr_of(b, r["o"], max_depth=20), "arg") if len(x) == 2}
+                if len(args) == 1:
+                    m.setdefault(args.pop(), set()).add(fs[0][2])
+            if r["k"] == "agg" and (r.get("adt") or "").startswith(P) and r.get("adt", "").split("::")[-1] in ("Segment", "MultiplicationInputsBlock"):
+                names = [f["name"] for f in facts.adts[r["adt"]]["variants"][0]["fields"]]
+                for name, o in zip(names, r["ops"]):
+                    args = {x[1] for x in _leaves(flow.expr_of(b, o, max_depth=20), "arg") if len(x) == 2}
+                    if len(args) == 1:
+                        m.setdefault(args.pop(), set()).add(name)
+        one = len(m) == 7 and all(len(v) == 1 for v in m.values()) and {next(iter(v)) for v in m.values()} == set(SEG_FIELDS)
+        short = root.split("::")[-2].split("<")[0] + "::" + root.split("::")[-1]
+        ctx.ob(rule, f"{short}:parameters-onto-fields", one, "seven parameters, one field each" if one else f"parameters are not stored one-to-one into the seven fields: { {k: sorted(v) for k, v in sorted(m.items())} }", site_of(b))
+        if one:
+            sinks[root] = (b, {k: next(iter(v)) for k, v in m.items()})
+    # call sites whose arguments are fields of a source segment
+    nsites = 0
+    for body in sorted(facts.non_test_bodies(), key=lambda x: x.path):
+        for bb, t in body.calls():
+            fn = F.callee(t)[0] or ""
+            if fn not in sinks:
+                continue
+            sb, m = sinks[fn]
+            rows = []
+            for k, fld in sorted(m.items()):
+                if k - 1 >= len(t["args"]):
+                    continue
+                e = flow.expr_of(body, t["args"][k - 1], max_depth=12)
+                src = {n for x in _leaves(e, "arg") + _leaves(e, "upvar") + _leaves(e, "place") for n in x[2:] if n in SEG_FIELDS}
+                rows.append((k, fld, src))
+            if not any(src for _, _, src in rows):
+                continue        # not fed from a segment (checked separately for zkp_multiply)
+            nsites += 1
+            bad = [(k, fld, sorted(src)) for k, fld, src in rows if src != {fld}]
+            short = fn.split("::")[-1]
+            ctx.ob(rule, f"{short}@{body.path.split('::')[-1]}:like-named-fields", not bad, "each parameter receives the like-named field of the segment" if not bad else f"parameter for `{bad[0][1]}` receives the segment's {bad[0][2] or 'no field'}: the recorded values are exchanged on this path (an honest batch fails the proof, or a wrong relation is proved)", site_of(body, bb))
+    ctx.floor(rule, "segment-fed call sites of set / clone_from", nsites, 2)
+    # insert_segment_small: (segment.F, &mut block.G) pairs
+    b = facts.bodies.get(P + "MultiplicationInputsBatch::insert_segment_small")
+    if b is None:
+        ctx.missing(rule, "insert_segment_small")
+    else:
+        ctx.count(bodies=1)
+        pairs = []
+        for bb, idx, s in b.iter_assigns():
+            r = s["r"]
+            if r["k"] == "agg" and r.get("ak") == "tuple" and len(r["ops"]) == 2:
+                a, c = flow.expr_of(b, r["ops"][0], max_depth=12), flow.expr_of(b, r["ops"][1], max_depth=12)
+                fa = [n for n in a[2:] if n in SEG_FIELDS] if a[0] == "arg" else []
+                fc = [n for n in c[2:] if n in SEG_FIELDS] if c[0] in ("proj", "arg", "place") else []
+                if fa and fc:
+                    pairs.append((bb, fa[0], fc[-1]))
+        badp = [p for p in pairs if p[1] != p[2]]
+        okp = len(pairs) == 7 and not badp and {p[1] for p in pairs} == set(SEG_FIELDS)
+        ctx.ob(rule, "insert_segment_small:like-named-pairs", okp, "seven (segment.F, block.F) pairs" if okp else (f"segment.{badp[0][1]} is copied into block.{badp[0][2]}" if badp else f"{len(pairs)} (segment field, block field) pairs found, expected the seven fields once each"), site_of(b, (badp or pairs or [(None,)])[0][0]) if (badp or pairs) else site_of(b))
+    # zkp_multiply: what is recorded is what was multiplied
+    root = "protocol::basics::mul::dzkp_malicious::zkp_multiply"
+    zb = async_body(facts, root)
+    fe = P + "Segment::<'a>::from_entries"
+    if zb is None or fe not in sinks:
+        ctx.missing(rule, "zkp_multiply / from_entries")
+        return
+    ctx.count(bodies=1)
+    from rules.C07 import params
+    pn = params(facts, root)
+    A, B = pn.get(3), pn.get(4)
+    call = flow.find_calls(zb, re.compile(r"Segment::<'a>::from_entries$"))
+    mp = flow.find_calls(zb, re.compile(r"multiplication_protocol$"))
+    if len(call) != 1 or len(mp) != 1 or A is None or B is None:
+        ctx.ob(rule, "zkp_multiply:records-one-segment", False, "zkp_multiply does not build exactly one segment from one multiplication", site_of(zb))
+        return
+    def role(e):
+        """(operand, side) the expression denotes, through as_segment_entry / references"""
+        s = str(e)
+        v = value_source(e, r"as_segment_entry$")
+        inner = v[2][0] if v else e
+        src = value_source(inner, r"(left_arr|right_arr)$")
+        if src is not None:
+            side = "left" if src[1].endswith("left_arr") else "right"
+            base = src[2][0]
+            if base[0] == "upvar" and len(base) == 2:
+                return (("a" if base[1] == A else "b" if base[1] == B else base[1]), side)
+            if value_source(base, r"multiplication_protocol$") is not None:
+                return ("z", side)
+            return ("?", side)
+        g = [x for x in _leaves(inner, "proj") if x[1][0] == "call" and x[1][1].endswith("SharedRandomness::generate")]
+        if g and inner[0] == "proj" and inner[1][0] == "call" and inner[1][1].endswith("SharedRandomness::generate"):
+            return ("prss", {"0": "left", "1": "right", 0: "left", 1: "right"}.get(inner[2], "?"))
+        return ("?", "?")
+    WANT = {"x_left": ("a", "left"), "x_right": ("a", "right"), "y_left": ("b", "left"), "y_right": ("b", "right"), "prss_left": ("prss", "left"), "prss_right": ("prss", "right"), "z_right": ("z", "right")}
+    _, m = sinks[fe]
+    for k, fld in sorted(m.items()):
+        got = role(flow.expr_of(zb, call[0][1]["args"][k - 1], max_depth=40))
+        ctx.ob(rule, f"zkp_multiply:{fld}", got == WANT[fld], f"{fld} = {got[0]}.{got[1]}" if got == WANT[fld] else f"{fld} is recorded as {got[0]}.{got[1]}, expected {WANT[fld][0]}.{WANT[fld][1]}: the proof is about other values than the ones multiplied", site_of(zb, call[0][0]))
+    margs = [flow.expr_of(zb, a, max_depth=40) for a in mp[0][1]["args"]]
+    got = []
+    for e in margs[2:6]:
+        if e[0] == "upvar" and len(e) == 2:
+            got.append("a" if e[1] == A else "b" if e[1] == B else e[1])
+        elif e[0] == "proj" and e[1][0] == "call" and e[1][1].endswith("SharedRandomness::generate"):
+            got.append("prss." + str(e[2]))
+        else:
+            got.append("?")
+    okm = got == ["a", "b", "prss.0", "prss.1"]
+    ctx.ob(rule, "zkp_multiply:multiplies-what-it-records", okm, "multiplication_protocol(ctx, record, a, b, prss.0, prss.1)" if okm else f"the multiplication is given {got}, the segment records (a, b, prss.0, prss.1)", site_of(zb, mp[0][0]))
